@@ -4,8 +4,11 @@
 package main
 
 import (
-	_ "verif/checks"
+	"verif/checks"
 	"verif/fw"
 )
 
-func main() { fw.Main() }
+func main() {
+	checks.DescribeSpxFamilies()
+	fw.Main()
+}
